@@ -76,6 +76,7 @@ func (h *NFSProcedureHandler) HandleCall(call *RPCCall, body io.Reader, authCtx 
 	// Acquire policy read lock. TryRLock fails if a policy update (Lock)
 	// is in progress, causing us to return JUKEBOX so clients retry.
 	if !handler.policyRWMu.TryRLock() {
+		vhook("hc.jukebox", "xid", call.Header.Xid)
 		// Policy drain in progress -- ask the client to retry, in the
 		// result shape of the procedure it called
 		return drainReply(call, reply), nil
@@ -86,6 +87,7 @@ func (h *NFSProcedureHandler) HandleCall(call *RPCCall, body io.Reader, authCtx 
 
 	// Snapshot options for this request
 	opts := handler.snapshotOptions()
+	vhook("hc.admit", "xid", call.Header.Xid, "pol", opts.Policy)
 
 	// Create context with timeout using snapshotted timeout
 	timeout := opts.Tuning.Timeouts.DefaultTimeout
@@ -95,6 +97,7 @@ func (h *NFSProcedureHandler) HandleCall(call *RPCCall, body io.Reader, authCtx 
 	// Validate authentication using policy snapshot
 	authResult := ValidateAuthentication(authCtx, opts.Policy)
 	if !authResult.Allowed {
+		vhook("hc.release", "xid", call.Header.Xid, "why", "denied")
 		handler.policyRWMu.RUnlock()
 		reply.Status = MSG_DENIED
 		if h.server.options.Debug {
@@ -115,6 +118,7 @@ func (h *NFSProcedureHandler) HandleCall(call *RPCCall, body io.Reader, authCtx 
 
 	go func() {
 		defer handler.policyRWMu.RUnlock()
+		defer vhook("hc.release", "xid", call.Header.Xid, "why", "done")
 		// A panic in a handler or in the backing filesystem must not take the
 		// whole server down: answer SYSTEM_ERR and keep serving.
 		defer func() {
